@@ -112,7 +112,7 @@ def run_kani_unit(root, repo, us, prop, tier, seed, work):
     if failing:
         # second, sequential run of the failing harnesses only, asking CBMC for concrete counterexamples
         # (time-boxed: a violation is reported with or without a failing input)
-        _, out2 = invoke(failing[:2], True, os.path.join(work, "kani-export-playback.json"), cfg.get("playback_timeout_s", 900))
+        _, out2 = invoke(failing[:1], True, os.path.join(work, "kani-export-playback.json"), cfg.get("playback_timeout_s", 900))
         if out2:
             open(os.path.join(work, "kani-playback.log"), "w").write(out2)
             playback = parse_playback(out2)
